@@ -1278,7 +1278,7 @@ int main(int argc, char** argv) {
     auto one = [&](uint64_t sd, uint64_t idx) {
         char gidb[64];
         snprintf(gidb, sizeof gidb, "g=%llu:%llu", (unsigned long long)sd, (unsigned long long)idx);
-        std::string res = in_child([&](FILE* o) { run_path(sd, idx, outdir, o); }, 20);
+        std::string res = in_child([&](FILE* o) { run_path(sd, idx, outdir, o); }, 60);
         absorb(out, res, gidb);
     };
     if (argc > 5) {
